@@ -528,7 +528,10 @@ class CsvReader:
         #: the indices for the objective bounds
         self.__bin_bounds: Final[tuple[tuple[str, int], ...]] = \
             csv_select_scope(
-                lambda x: tuple(sorted(((k, v) for k, v in x.items()))),
+                lambda x: tuple(sorted(((
+                    k if k == LOWER_BOUNDS_BIN_COUNT else csv_scope(
+                        LOWER_BOUNDS_BIN_COUNT, k), v)
+                    for k, v in x.items()))),
                 columns, LOWER_BOUNDS_BIN_COUNT)
         if tuple.__len__(self.__bin_bounds) <= 0:
             raise ValueError("No bin bounds found?")
